@@ -5,7 +5,6 @@ import (
 	"encoding/json"
 	"fmt"
 	"os"
-	"os/exec"
 	"path/filepath"
 	"regexp"
 	"strings"
@@ -14,12 +13,12 @@ import (
 // matcher is a declarative predicate over a minimised violation: every
 // non-empty clause must hold.
 type matcher struct {
-	Oracle        []string          `json:"oracle,omitempty"`         // violation oracle is one of
-	Op            []string          `json:"op,omitempty"`             // violation op is one of
-	Detail        map[string]string `json:"detail,omitempty"`         // violation detail contains these key/values (value is a regexp)
-	Message       string            `json:"message,omitempty"`        // regexp on the message
-	TraceAll      []string          `json:"trace_all,omitempty"`      // each regexp matches some trace line
-	TraceNone     []string          `json:"trace_none,omitempty"`     // no trace line matches any of these
+	Oracle        []string          `json:"oracle,omitempty"`          // violation oracle is one of
+	Op            []string          `json:"op,omitempty"`              // violation op is one of
+	Detail        map[string]string `json:"detail,omitempty"`          // violation detail contains these key/values (value is a regexp)
+	Message       string            `json:"message,omitempty"`         // regexp on the message
+	TraceAll      []string          `json:"trace_all,omitempty"`       // each regexp matches some trace line
+	TraceNone     []string          `json:"trace_none,omitempty"`      // no trace line matches any of these
 	LastOpMatches string            `json:"last_op_matches,omitempty"` // regexp on the last operation line of the trace
 }
 
@@ -152,8 +151,8 @@ type probeResult struct {
 // runProbe executes a named deterministic scenario in a fresh worker process.
 // A probe that kills the process counts as reproducing (the defect is a crash).
 func (b *build) runProbe(id string) probeResult {
-	cmd := exec.Command(b.worker, "-probe", id)
-	cmd.Env = append(os.Environ(), "GOTRACEBACK=single")
+	cmd := b.plainCommand("-probe", id)
+	cmd.Env = append(cmd.Env, "GOTRACEBACK=single")
 	var out, errb bytes.Buffer
 	cmd.Stdout = &out
 	cmd.Stderr = &errb
@@ -162,7 +161,7 @@ func (b *build) runProbe(id string) probeResult {
 		return probeResult{ID: id, Known: true, Reproduces: true, Detail: "probe process died: " + tail(errb.String(), 12)}
 	}
 	var pr probeResult
-	if e := json.Unmarshal(out.Bytes(), &pr); e != nil {
+	if e := decodeFirst(out.Bytes(), &pr); e != nil {
 		infra("probe %s: unreadable output %q", id, out.String())
 	}
 	if !pr.Known {
